@@ -9,5 +9,12 @@ CONSTANTS NTxn,      \* transactions per writer
 SeqsOf(S, n) == [1..n -> S]
 MCPlans == [Writers -> SeqsOf(MCHows, NTxn)]
 MCRPlans == [Readers -> {NReads}]
-\* a smaller plan space for the liveness run: the first writer varies, the others commit
+MCPPlans == [Policers -> {<<2, 1>>, <<0, 1>>}]   \* with Policers = {} this is the single empty function
+\* writers are interchangeable: one plan per multiset of endings (first transaction sorted)
+Rank(h) == CASE h = "commit" -> 1 [] h = "rollback" -> 2 [] OTHER -> 3
+MCPlansSym == {p \in MCPlans : \A i, j \in Writers : i < j => Rank(p[i][1]) <= Rank(p[j][1])}
+\* a smaller plan space for the liveness run: every writer's transactions end the same way
+\* within one behaviour (all commit, or all roll back - the wake-up on rollback is the
+\* interesting liveness case)
+MCPlansLive == {[i \in Writers |-> [j \in 1..NTxn |-> h]] : h \in {"commit", "rollback"}}
 =============================================================================
